@@ -155,7 +155,7 @@ def project(atoms, R, residual_tol=1e-6):
             K["cell"] = []
         else:
             ic, res = R.unvec(np.array(atoms.cell, dtype=float))
-            if res > residual_tol:
+            if res > min(residual_tol, 1e-6):
                 problems.append("cell not on the rendered lattice (residual %.3g)" % res)
             K["cell"] = ic.tolist()
     except Exception as e:  # malformed object: report, do not guess
